@@ -1,37 +1,123 @@
 /-
-C05: the invariant of `persist_response; handle_event` composed with the whole write-task model:
-* every body waiting anywhere in the write task has been handed to the store (if its lane is persistent),
+C05: the invariant of `persist_response; handle_event` composed with the whole write-task model and with the
+registration of lanes / stores (initial endpoints and `AddLane` / `AddStore` at run time):
+* every body waiting anywhere in the write task belongs to a registered lane and has been handed to the store (if
+  its lane's stream was built with a store id),
 * the log is ordered: every event frame of a persistent lane is preceded by the store operation for its state,
-* the durable store is the fold of the logged store operations.
+* the durable store is the fold of the logged store operations,
+* a lane's store id is fixed when it is registered (ids are handed out once).
 -/
 import SwimVerif.Proofs.PersistStore
 import SwimVerif.Proofs.PersistWT
+import SwimVerif.Proofs.AssocList
 
 namespace SwimVerif.Persist
 open SwimVerif.WT
 
-/-- The state carried by body `b` of lane `l` has been handed to the store (vacuous for a transient lane). -/
-def Covered (cfg : Cfg) (log : List Entry) (l : Nat) (b : Body) : Prop :=
-  ∀ sid, cfg.sid l = some sid → ∃ op, storeOpOf sid b = some op ∧ Entry.store op ∈ log
+/-! ### The lane registry only grows, and only by registration -/
+
+@[simp] theorem reg_pushSpecial (s : WT.St) (r : Nat) (a : Special) : (s.pushSpecial r a).1.reg = s.reg := by
+  unfold St.pushSpecial; split <;> rfl
+
+@[simp] theorem reg_pushWrite (s : WT.St) (r lane : Nat) (ev : Resp) : (s.pushWrite r lane ev).1.reg = s.reg := by
+  unfold St.pushWrite; split <;> rfl
+
+@[simp] theorem reg_removeRemote (s : WT.St) (r : Nat) (why : Reason) : (s.removeRemote r why).1.reg = s.reg := by
+  unfold St.removeRemote; simp only []; split <;> rfl
+
+@[simp] theorem reg_stepOrphan (s : WT.St) (r : Nat) (ok : Bool) : (stepOrphan s r ok).1.reg = s.reg := by
+  unfold stepOrphan; split <;> rfl
+
+theorem reg_foldSpecial {α : Type} (f : α → Nat × Special) (xs : List α) (acc : WT.St × List Nat) :
+    (xs.foldl (fun (acc : WT.St × List Nat) x =>
+      let y := acc.1.pushSpecial (f x).1 (f x).2; (y.1, acc.2 ++ y.2)) acc).1.reg = acc.1.reg := by
+  induction xs generalizing acc with
+  | nil => rfl
+  | cons x rest ih => simp only [List.foldl]; rw [ih]; simp
+
+theorem reg_foldWrite (lane : Nat) (ev : Resp) (xs : List Nat) (acc : WT.St × List Nat) :
+    (xs.foldl (fun (acc : WT.St × List Nat) r =>
+      let x := acc.1.pushWrite r lane ev; (x.1, acc.2 ++ x.2)) acc).1.reg = acc.1.reg := by
+  induction xs generalizing acc with
+  | nil => rfl
+  | cons x rest ih => simp only [List.foldl]; rw [ih]; simp
+
+/-- Only `register_lane` changes the registry: it appends the new lane's name (the lane's id is its index). -/
+theorem reg_step (s : WT.St) (e : WT.Ev) :
+    (WT.step s e).1.reg = (match e with | .lane name _ => s.reg ++ [name] | _ => s.reg) := by
+  cases e with
+  | lane name rep => simp only [WT.step]; split <;> rfl
+  | attach r => simp only [WT.step]; split <;> rfl
+  | link r name => simp only [WT.step]; split <;> simp
+  | unlink r name =>
+    simp only [WT.step]
+    split
+    · split <;> simp
+    · rfl
+  | unknown r name => simp [WT.step]
+  | event lane target resp =>
+    simp only [WT.step]
+    split
+    · split
+      · rfl
+      · split <;> simp
+    · split
+      · rfl
+      · exact reg_foldWrite lane resp _ _
+  | done r ok =>
+    simp only [WT.step]
+    split
+    · simp
+    · split
+      · simp
+      · split <;> simp
+  | laneFailed lane =>
+    simp only [WT.step]
+    exact reg_foldSpecial (fun (p : Nat × Bool) => (p.1, Special.unlinked lane .none)) _ _
+  | prune r => simp only [WT.step]; split <;> simp
+  | stop =>
+    simp only [WT.step]
+    exact reg_foldSpecial (fun (p : Nat × Nat) => (p.2, Special.unlinked p.1 .none)) _ _
+  | snapshot => rfl
+
+theorem reg_step_other (s : WT.St) (e : WT.Ev) (h : isLaneEvent e = false) : (WT.step s e).1.reg = s.reg := by
+  rw [reg_step]; cases e <;> simp [isLaneEvent] at h ⊢
+
+/-! ### Covered / ordered -/
+
+/-- Body `b` belongs to a registered lane `l` (`l < n`, ids are indices into the registry) and the state it carries
+has been handed to the store (vacuous if the lane's stream was built without a store id). `m`: lane id ↦ store id. -/
+def Covered (m : List (Nat × Nat)) (n : Nat) (log : List Entry) (l : Nat) (b : Body) : Prop :=
+  l < n ∧ ∀ sid, alGet m l = some sid → ∃ op, storeOpOf sid b = some op ∧ Entry.store op ∈ log
 
 /-- Every event frame in the log is preceded by the store operation for the state it carries. -/
-def Ordered (cfg : Cfg) (log : List Entry) : Prop :=
-  ∀ pre post r l b, log = pre ++ Entry.send r (some l) (.event b) :: post → Covered cfg pre l b
+def Ordered (m : List (Nat × Nat)) (n : Nat) (log : List Entry) : Prop :=
+  ∀ pre post r l b, log = pre ++ Entry.send r (some l) (.event b) :: post → Covered m n pre l b
 
-theorem covered_mono {cfg : Cfg} {log : List Entry} (more : List Entry) {l : Nat} {b : Body}
-    (h : Covered cfg log l b) : Covered cfg (log ++ more) l b := by
+theorem covered_mono {m : List (Nat × Nat)} {n : Nat} {log : List Entry} (more : List Entry) {l : Nat} {b : Body}
+    (h : Covered m n log l b) : Covered m n (log ++ more) l b := by
+  refine ⟨h.1, ?_⟩
   intro sid hs
-  obtain ⟨op, h1, h2⟩ := h sid hs
+  obtain ⟨op, h1, h2⟩ := h.2 sid hs
   exact ⟨op, h1, List.mem_append_left _ h2⟩
 
-theorem ordered_nil (cfg : Cfg) : Ordered cfg [] := by
+/-- Registering the next lane (id `n`) does not disturb what is known about the lanes registered before. -/
+theorem covered_reg {m : List (Nat × Nat)} {n : Nat} {log : List Entry} {l : Nat} {b : Body} (sid' : Nat)
+    (h : Covered m n log l b) : Covered (alSet m n sid') (n + 1) log l b ∧ Covered m (n + 1) log l b := by
+  have hl := h.1
+  refine ⟨⟨by omega, ?_⟩, ⟨by omega, h.2⟩⟩
+  intro sid hs
+  rw [alGet_alSet_ne _ _ (by omega)] at hs
+  exact h.2 sid hs
+
+theorem ordered_nil (m : List (Nat × Nat)) (n : Nat) : Ordered m n [] := by
   intro pre post r l b h
   have := congrArg List.length h
   simp at this
 
-theorem ordered_append {cfg : Cfg} {log new : List Entry} (h : Ordered cfg log)
+theorem ordered_append {m : List (Nat × Nat)} {n : Nat} {log new : List Entry} (h : Ordered m n log)
     (hnew : ∀ pre2 post2 r l b, new = pre2 ++ Entry.send r (some l) (.event b) :: post2 →
-      Covered cfg (log ++ pre2) l b) : Ordered cfg (log ++ new) := by
+      Covered m n (log ++ pre2) l b) : Ordered m n (log ++ new) := by
   intro pre post r l b heq
   rcases List.append_eq_append_iff.mp heq with ⟨a', h1, h2⟩ | ⟨c', h1, h2⟩
   · -- pre = log ++ a', new = a' ++ send :: post
@@ -50,9 +136,15 @@ theorem ordered_append {cfg : Cfg} {log new : List Entry} (h : Ordered cfg log)
       subst hx
       exact h pre c'' r l b h1
 
-theorem ordered_prefix {cfg : Cfg} {a b : List Entry} (h : Ordered cfg (a ++ b)) : Ordered cfg a := by
+theorem ordered_prefix {m : List (Nat × Nat)} {n : Nat} {a b : List Entry} (h : Ordered m n (a ++ b)) :
+    Ordered m n a := by
   intro pre post r l bd heq
   exact h pre (post ++ b) r l bd (by rw [heq]; simp)
+
+theorem ordered_reg {m : List (Nat × Nat)} {n : Nat} {log : List Entry} (sid' : Nat) (h : Ordered m n log) :
+    Ordered (alSet m n sid') (n + 1) log ∧ Ordered m (n + 1) log :=
+  ⟨fun pre post r l b heq => (covered_reg sid' (h pre post r l b heq)).1,
+   fun pre post r l b heq => (covered_reg sid' (h pre post r l b heq)).2⟩
 
 theorem storeOps_append (a b : List Entry) : storeOps (a ++ b) = storeOps a ++ storeOps b := by
   induction a with
@@ -83,21 +175,29 @@ theorem mem_storeOps {op : SOp Nat} {log : List Entry} : op ∈ storeOps log ↔
   | nil => simp [storeOps]
   | cons e rest ih => cases e <;> simp [storeOps, ih]
 
-structure PInv (cfg : Cfg) (s : PSt) : Prop where
-  pend : PendingOK (Covered cfg s.log) s.wt
-  ord : Ordered cfg s.log
+structure PInv (s : PSt) : Prop where
+  pend : PendingOK (Covered s.laneSid s.wt.reg.length s.log) s.wt
+  ord : Ordered s.laneSid s.wt.reg.length s.log
   fold : s.store = foldStore (storeOps s.log)
-  /-- every store operation in the log is addressed to the store id of some (persistent) item -/
-  sids : ∀ op, Entry.store op ∈ s.log → ∃ item, cfg.sid item = some op.sid
+  /-- every store operation in the log is addressed to the store id of some registered (persistent) item -/
+  sids : ∀ op, Entry.store op ∈ s.log →
+    ∃ item, alGet s.laneSid item = some op.sid ∨ alGet s.storeSid item = some op.sid
+  /-- store ids are only held by registered lanes / stores (so the next registration cannot overwrite one) -/
+  lbound : ∀ l sid, alGet s.laneSid l = some sid → l < s.wt.reg.length
+  sbound : ∀ i sid, alGet s.storeSid i = some sid → i < s.storeCounter
 
-theorem pinv_init (cfg : Cfg) : PInv cfg {} :=
-  ⟨pendingOK_init _, ordered_nil cfg, rfl, by intro op h; simp at h⟩
+theorem pinv_init : PInv {} :=
+  ⟨pendingOK_init _, ordered_nil _ _, rfl, by intro op h; simp at h,
+   by intro l sid h; simp [alGet] at h, by intro l sid h; simp [alGet] at h⟩
 
-theorem pinv_wtStep {cfg : Cfg} {s : PSt} (h : PInv cfg s) (e : WT.Ev) (hnew : NewOK (Covered cfg s.log) e) :
-    PInv cfg (wtStep s e) := by
-  refine ⟨?_, ?_, ?_, ?_⟩
-  · exact pendingOK_mono (fun l b hc => covered_mono _ hc) (pendingOK_step h.pend e hnew)
-  · apply ordered_append h.ord
+/-- A write-task step that registers nothing. -/
+theorem pinv_wtStep {s : PSt} (h : PInv s) (e : WT.Ev) (hreg : (WT.step s.wt e).1.reg = s.wt.reg)
+    (hnew : NewOK (Covered s.laneSid s.wt.reg.length s.log) e) : PInv (wtStep s e) := by
+  refine ⟨?_, ?_, ?_, ?_, ?_, h.sbound⟩
+  · simp only [wtStep, hreg]
+    exact pendingOK_mono (fun l b hc => covered_mono _ hc) (pendingOK_step h.pend e hnew)
+  · simp only [wtStep, hreg]
+    apply ordered_append h.ord
     intro pre2 post2 r l b heq
     apply covered_mono
     exact sentBy_ok h.pend e r l b (by rw [heq]; simp)
@@ -110,6 +210,56 @@ theorem pinv_wtStep {cfg : Cfg} {s : PSt} (h : PInv cfg s) (e : WT.Ev) (hnew : N
     · have := mem_storeOps.mpr hop
       rw [storeOps_sentBy] at this
       simp at this
+  · simp only [wtStep, hreg]
+    exact h.lbound
+
+theorem sentBy_lane (s : WT.St) (name : Nat) (rep : Bool) : sentBy s (.lane name rep) = [] := rfl
+
+theorem reg_length_lane (s : WT.St) (name : Nat) (rep : Bool) :
+    (WT.step s (.lane name rep)).1.reg.length = s.reg.length + 1 := by
+  rw [reg_step]; simp
+
+/-- Registration of a lane whose stream is built with store id `sid` (`register_lane` gives it the next id). -/
+theorem pinv_register_some {s : PSt} (h : PInv s) (name : Nat) (rep : Bool) (sid : Nat) :
+    PInv (wtStep { s with laneSid := alSet s.laneSid s.wt.reg.length sid } (.lane name rep)) := by
+  refine ⟨?_, ?_, ?_, ?_, ?_, h.sbound⟩
+  · simp only [wtStep, sentBy_lane, List.append_nil, reg_length_lane]
+    exact pendingOK_mono (fun l b hc => (covered_reg sid hc).1) (pendingOK_step h.pend _ trivial)
+  · simp only [wtStep, sentBy_lane, List.append_nil, reg_length_lane]
+    exact (ordered_reg sid h.ord).1
+  · simp only [wtStep, sentBy_lane, List.append_nil]
+    exact h.fold
+  · intro op hop
+    simp only [wtStep, sentBy_lane, List.append_nil] at hop ⊢
+    obtain ⟨item, hi | hi⟩ := h.sids op hop
+    · refine ⟨item, Or.inl ?_⟩
+      have := h.lbound item _ hi
+      rw [alGet_alSet_ne _ _ (by omega)]
+      exact hi
+    · exact ⟨item, Or.inr hi⟩
+  · intro l x hl
+    simp only [wtStep, reg_length_lane] at hl ⊢
+    rw [alGet_alSet] at hl
+    split at hl
+    · omega
+    · have := h.lbound l x hl; omega
+
+/-- Registration of a lane whose stream is built with `store_id = None`. -/
+theorem pinv_register_none {s : PSt} (h : PInv s) (name : Nat) (rep : Bool) :
+    PInv (wtStep s (.lane name rep)) := by
+  refine ⟨?_, ?_, ?_, ?_, ?_, h.sbound⟩
+  · simp only [wtStep, sentBy_lane, List.append_nil, reg_length_lane]
+    exact pendingOK_mono (fun l b hc => (covered_reg 0 hc).2) (pendingOK_step h.pend _ trivial)
+  · simp only [wtStep, sentBy_lane, List.append_nil, reg_length_lane]
+    exact (ordered_reg 0 h.ord).2
+  · simp only [wtStep, sentBy_lane, List.append_nil]
+    exact h.fold
+  · intro op hop
+    simp only [wtStep, sentBy_lane, List.append_nil] at hop ⊢
+    exact h.sids op hop
+  · intro l x hl
+    simp only [wtStep, reg_length_lane] at hl ⊢
+    have := h.lbound l x hl; omega
 
 /-- `persist_response` stores exactly the state that the response's body carries. -/
 theorem persistOp_covers (sid : Nat) (target : Option Nat) (r : Resp) (b : Body) (hb : respBody? r = some b) :
@@ -130,7 +280,10 @@ theorem persistOp_sid (storeId : Option Nat) (d : RespData) (op : SOp Nat) (h : 
     | storeValue b => simp [persistOp] at h; subst h; rfl
     | storeMap o => simp [persistOp] at h; subst h; rfl
 
-theorem pinv_step {cfg : Cfg} {s : PSt} (h : PInv cfg s) (e : PEv) : PInv cfg (pstep cfg s e) := by
+theorem reg_step_event (s : WT.St) (l : Nat) (t : Option Nat) (r : Resp) : (WT.step s (.event l t r)).1.reg = s.reg := by
+  rw [reg_step]
+
+theorem pinv_step (cfg : Cfg) {s : PSt} (h : PInv s) (e : PEv) : PInv (pstep cfg s e) := by
   cases e with
   | other e =>
     simp only [pstep]
@@ -139,59 +292,189 @@ theorem pinv_step {cfg : Cfg} {s : PSt} (h : PInv cfg s) (e : PEv) : PInv cfg (p
     · split
       · exact h
       · rename_i hl
-        apply pinv_wtStep h
-        cases e <;> simp [NewOK, isLaneEvent] at hl ⊢
+        have hl' : isLaneEvent e = false := by simpa using hl
+        apply pinv_wtStep h e (reg_step_other _ _ hl')
+        cases e <;> simp [NewOK, isLaneEvent] at hl' ⊢
+  | addStore name idOk =>
+    simp only [pstep]
+    split
+    · exact h
+    · split
+      · split
+        · refine ⟨h.pend, h.ord, h.fold, ?_, h.lbound, ?_⟩
+          · intro op hop
+            obtain ⟨item, hi | hi⟩ := h.sids op hop
+            · exact ⟨item, Or.inl hi⟩
+            · refine ⟨item, Or.inr ?_⟩
+              have := h.sbound item _ hi
+              simp only []
+              rw [alGet_alSet_ne _ _ (by omega)]
+              exact hi
+          · intro i x hi
+            simp only [] at hi ⊢
+            rw [alGet_alSet] at hi
+            split at hi
+            · omega
+            · have := h.sbound i x hi; omega
+        · exact ⟨h.pend, h.ord, h.fold, h.sids, h.lbound, h.sbound⟩
+      · exact h
+  | addLane late name kind transient reporter idOk =>
+    simp only [pstep]
+    split
+    · exact h
+    · split
+      · split
+        · exact pinv_register_some h name reporter _
+        · exact ⟨h.pend, h.ord, h.fold, h.sids, h.lbound, h.sbound⟩
+      · exact pinv_register_none h name reporter
   | resp item d storeOk =>
     simp only [pstep]
     split
     · exact h
-    · cases hp : persistOp (cfg.sid item) d with
-      | none =>
-        simp only []
-        cases d with
-        | lane target r =>
+    · by_cases hregd : s.registered item d = true
+      · simp only [hregd, ↓reduceIte]
+        cases hp : persistOp (s.sidOf item d) d with
+        | none =>
           simp only []
-          apply pinv_wtStep h
-          intro b hb sid hs
-          rw [hs, persistOp_covers sid target r b hb] at hp
-          cases r <;> simp [respBody?] at hb <;> subst hb <;> simp [storeOpOf] at hp
-        | storeValue b => exact h
-        | storeMap op => exact h
-      | some op =>
-        simp only []
-        by_cases hok : storeOk = true
-        · simp only [hok, ↓reduceIte]
-          -- the state after the store call
-          have h1 : PInv cfg { s with store := applyStore s.store op, log := s.log ++ [.store op] } := by
-            refine ⟨?_, ?_, ?_, ?_⟩
-            · exact pendingOK_mono (fun l b hc => covered_mono _ hc) h.pend
-            · apply ordered_append h.ord
-              intro pre2 post2 r l b heq
-              have := congrArg List.length heq
-              cases pre2 <;> simp at heq
-            · simp only [storeOps_append, storeOps, foldStore, List.foldl_append, List.foldl]
-              rw [h.fold]; rfl
-            · intro op' hop
-              simp only [List.mem_append, List.mem_singleton] at hop
-              rcases hop with hop | hop
-              · exact h.sids op' hop
-              · cases hop
-                exact ⟨item, persistOp_sid _ _ _ hp⟩
           cases d with
           | lane target r =>
             simp only []
-            apply pinv_wtStep h1
-            intro b hb sid hs
+            apply pinv_wtStep h _ (reg_step_event _ _ _ _)
+            intro b hb
+            refine ⟨by simpa [PSt.registered] using hregd, ?_⟩
+            intro sid hs
+            simp only [PSt.sidOf] at hp
             rw [hs, persistOp_covers sid target r b hb] at hp
-            exact ⟨op, hp, by simp⟩
-          | storeValue b => exact h1
-          | storeMap o => exact h1
-        · simp only [hok]
-          exact ⟨h.pend, h.ord, h.fold, h.sids⟩
+            cases r <;> simp [respBody?] at hb <;> subst hb <;> simp [storeOpOf] at hp
+          | storeValue b => exact h
+          | storeMap op => exact h
+        | some op =>
+          simp only []
+          by_cases hok : storeOk = true
+          · simp only [hok, ↓reduceIte]
+            -- the state after the store call
+            have h1 : PInv { s with store := applyStore s.store op, log := s.log ++ [.store op] } := by
+              refine ⟨?_, ?_, ?_, ?_, h.lbound, h.sbound⟩
+              · exact pendingOK_mono (fun l b hc => covered_mono _ hc) h.pend
+              · apply ordered_append h.ord
+                intro pre2 post2 r l b heq
+                have := congrArg List.length heq
+                cases pre2 <;> simp at heq
+              · simp only [storeOps_append, storeOps, foldStore, List.foldl_append, List.foldl]
+                rw [h.fold]; rfl
+              · intro op' hop
+                simp only [List.mem_append, List.mem_singleton] at hop
+                rcases hop with hop | hop
+                · exact h.sids op' hop
+                · cases hop
+                  have hsid := persistOp_sid _ _ _ hp
+                  cases d with
+                  | lane t r => exact ⟨item, Or.inl hsid⟩
+                  | storeValue b => exact ⟨item, Or.inr hsid⟩
+                  | storeMap o => exact ⟨item, Or.inr hsid⟩
+            cases d with
+            | lane target r =>
+              simp only []
+              apply pinv_wtStep h1 _ (reg_step_event _ _ _ _)
+              intro b hb
+              refine ⟨by simpa [PSt.registered] using hregd, ?_⟩
+              intro sid hs
+              simp only [PSt.sidOf] at hp
+              rw [hs, persistOp_covers sid target r b hb] at hp
+              exact ⟨op, hp, by simp⟩
+            | storeValue b => exact h1
+            | storeMap o => exact h1
+          · simp only [hok]
+            exact ⟨h.pend, h.ord, h.fold, h.sids, h.lbound, h.sbound⟩
+      · simp only [hregd]
+        exact h
 
-theorem pinv_run {cfg : Cfg} {s : PSt} (h : PInv cfg s) (evs : List PEv) : PInv cfg (prun cfg s evs) := by
+theorem pinv_run (cfg : Cfg) {s : PSt} (h : PInv s) (evs : List PEv) : PInv (prun cfg s evs) := by
   induction evs generalizing s with
   | nil => exact h
-  | cons e rest ih => exact ih (pinv_step h e)
+  | cons e rest ih => exact ih (pinv_step cfg h e)
+
+/-! ### A lane's store id is fixed at registration -/
+
+theorem reg_length_wtStep_le (s : PSt) (e : WT.Ev) : s.wt.reg.length ≤ (wtStep s e).wt.reg.length := by
+  simp only [wtStep, reg_step]
+  cases e <;> simp
+
+/-- One step never changes the store id of a lane that is already registered, and never unregisters a lane. -/
+theorem pstep_laneSid (cfg : Cfg) {s : PSt} (e : PEv) {l : Nat} (hl : l < s.wt.reg.length) :
+    alGet (pstep cfg s e).laneSid l = alGet s.laneSid l ∧ s.wt.reg.length ≤ (pstep cfg s e).wt.reg.length := by
+  cases e with
+  | other e =>
+    simp only [pstep]
+    split
+    · exact ⟨rfl, Nat.le_refl _⟩
+    · split
+      · exact ⟨rfl, Nat.le_refl _⟩
+      · exact ⟨rfl, reg_length_wtStep_le s e⟩
+  | addStore name idOk =>
+    simp only [pstep]
+    split
+    · exact ⟨rfl, Nat.le_refl _⟩
+    · split
+      · split <;> exact ⟨rfl, Nat.le_refl _⟩
+      · exact ⟨rfl, Nat.le_refl _⟩
+  | addLane late name kind transient reporter idOk =>
+    simp only [pstep]
+    split
+    · exact ⟨rfl, Nat.le_refl _⟩
+    · split
+      · split
+        · refine ⟨?_, ?_⟩
+          · simp only [wtStep]
+            exact alGet_alSet_ne _ _ (by omega)
+          · exact reg_length_wtStep_le _ _
+        · exact ⟨rfl, Nat.le_refl _⟩
+      · exact ⟨rfl, reg_length_wtStep_le _ _⟩
+  | resp item d storeOk =>
+    simp only [pstep]
+    split
+    · exact ⟨rfl, Nat.le_refl _⟩
+    · split
+      · split
+        · split
+          · cases d with
+            | lane target r => exact ⟨rfl, reg_length_wtStep_le _ _⟩
+            | storeValue b => exact ⟨rfl, Nat.le_refl _⟩
+            | storeMap o => exact ⟨rfl, Nat.le_refl _⟩
+          · exact ⟨rfl, Nat.le_refl _⟩
+        · cases d with
+          | lane target r => exact ⟨rfl, reg_length_wtStep_le _ _⟩
+          | storeValue b => exact ⟨rfl, Nat.le_refl _⟩
+          | storeMap o => exact ⟨rfl, Nat.le_refl _⟩
+      · exact ⟨rfl, Nat.le_refl _⟩
+
+theorem prun_laneSid (cfg : Cfg) (evs : List PEv) {s : PSt} {l : Nat} (hl : l < s.wt.reg.length) :
+    alGet (prun cfg s evs).laneSid l = alGet s.laneSid l ∧ l < (prun cfg s evs).wt.reg.length := by
+  induction evs generalizing s with
+  | nil => exact ⟨rfl, hl⟩
+  | cons e rest ih =>
+    have h1 := pstep_laneSid cfg e hl
+    have h2 := ih (s := pstep cfg s e) (by omega)
+    exact ⟨by simp only [prun, List.foldl] at h2 ⊢; rw [h2.1, h1.1], by simpa [prun] using h2.2⟩
+
+theorem prun_append (cfg : Cfg) (s : PSt) (a b : List PEv) : prun cfg s (a ++ b) = prun cfg (prun cfg s a) b := by
+  simp [prun, List.foldl_append]
+
+/-- What a (successful) registration does: the lane gets the next id and its stream the store id `laneStoreId`. -/
+theorem pstep_addLane {cfg : Cfg} {s : PSt} (h : PInv s) (hlive : s.failed = false)
+    (late : Bool) (name : Nat) (kind : UKind) (transient rep : Bool) :
+    (pstep cfg s (.addLane late name kind transient rep true)).wt.reg.length = s.wt.reg.length + 1 ∧
+    alGet (pstep cfg s (.addLane late name kind transient rep true)).laneSid s.wt.reg.length =
+      laneStoreId cfg late name kind transient ∧
+    (pstep cfg s (.addLane late name kind transient rep true)).failed = false := by
+  simp only [pstep, hlive]
+  cases hs : laneStoreId cfg late name kind transient with
+  | none =>
+    simp only [wtStep, reg_length_lane, hlive, Bool.false_eq_true, ↓reduceIte, true_and, and_true]
+    cases hg : alGet s.laneSid s.wt.reg.length with
+    | none => rfl
+    | some x => have := h.lbound _ _ hg; omega
+  | some sid =>
+    simp only [wtStep, reg_length_lane, Bool.false_eq_true, ↓reduceIte, alGet_alSet_same, and_self]
 
 end SwimVerif.Persist
